@@ -95,11 +95,63 @@ def call_order_ok(p, first, second):
         return False
 
 
+def lift_new_fn_sites(ctx, sites, scope, depth=0):
+    """A may-panic site inside a function the rule base does not know (a freshly extracted helper) is judged where the
+    helper is called: one virtual site per call of the helper from a known function in scope (fn/block = the caller's
+    call site; the guards then look at the caller's paths, which see through the helper).  A helper nobody in scope
+    calls keeps its own sites (reported as unlisted)."""
+    F = ctx.F
+    from .graph import fn_uses
+    out = []
+    callers = None
+    for s in sites:
+        g = F.fns.get(s["fn"])
+        root = g
+        while root is not None and root.is_closure and root.parent in F.fns:
+            root = F.fns[root.parent]
+        if g is None or root is None or not F.is_new_fn(root.id) or g is not root or depth > 2:
+            out.append(s)
+            continue
+        if callers is None:
+            callers = {}
+            for fid in sorted(scope):
+                fn = F.fns.get(fid)
+                if fn is None:
+                    continue
+                for kind, path, full, rdef, rlocal, bi, span, t in fn_uses(fn):
+                    for tgt in (rdef, path):
+                        if tgt and F.is_new_fn(tgt):
+                            callers.setdefault(tgt, []).append((fid, bi, kind))
+                            break
+        cs = [c for c in callers.get(g.id, []) if c[0] != g.id]
+        if not cs or any(k != "call" for _, _, k in cs):
+            out.append(s)
+            continue
+        lifted = []
+        for fid, bi, _ in cs:
+            v = dict(s)
+            v["fn"], v["block"], v["via"] = fid, bi, s.get("via", []) + [g.id]
+            v.setdefault("orig", (g.id, s["block"]))
+            v["key"] = "%s#%s:%s#%d(in %s, called at bb%d)" % (fid, s["kind"], s["what"], s["ordinal"], g.id.split("::")[-1], bi)
+            lifted.append(v)
+        out.extend(lift_new_fn_sites(ctx, lifted, scope, depth + 1))
+    return out
+
+
+def site_is(c, s):
+    """is the call expression c (from a walker path of s["fn"]) the call of may-panic site s?"""
+    if c[4][:2] != (s["fn"], s["block"]):
+        return False
+    if "orig" in s:
+        return tuple(c[4][-2:]) == tuple(s["orig"])
+    return len(c[4]) == 2
+
+
 def audit_panics(ctx, rule, scope, discharge, floor=None):
     """A8: every may-panic site in `scope` must match one discharge entry whose guard verifies.
     discharge: list of dicts {fn: substring of fn id, what: callee/assert kind (optional),
     reason: str, guard: callable(ctx, site)->(ok, detail) or None}"""
-    sites = panic_sites(ctx.F, scope)
+    sites = lift_new_fn_sites(ctx, panic_sites(ctx.F, scope), scope)
     used = [0] * len(discharge)
     for s in sites:
         hit = None
